@@ -196,6 +196,8 @@ class SMUserList(UserList, ABC):
             elif isinstance(arg[0], np.ndarray):
                 # possibly a list of numpy arrays
                 self.data = [self._import(x, check=check) for x in arg]
+                if any(x is None for x in self.data):
+                    raise ValueError('list contains an invalid value')
 
             elif type(arg[0]) == type(self):
                 # possibly a list of objects of same type
